@@ -103,14 +103,45 @@ int main(int argc, char** argv) {
     printf("{\"e\":\"Local\",\"env\":%s,\"ok\":-1,\"tzname\":%s,\"isutc\":%d,\"look\":%s,\"fs\":%s}\n", env_json().c_str(),
            bj(l.name()).c_str(), l == utc_time_zone() ? 1 : 0, looks(l).c_str(), fsj.c_str());
   }
-  std::ifstream in(argv[1]);
-  std::string line;
-  while (std::getline(in, line)) {
-    std::string name = unhex(line);
-    time_zone tz;
-    bool ok = load_time_zone(name, &tz);
-    printf("{\"e\":\"Resolve\",\"env\":%s,\"name\":%s,\"ok\":%d,\"tzname\":%s,\"isutc\":%d,\"look\":%s,\"fs\":%s}\n", env_json().c_str(),
-           bj(name).c_str(), ok ? 1 : 0, bj(tz.name()).c_str(), tz == utc_time_zone() ? 1 : 0, looks(tz).c_str(), fs_json(name).c_str());
+  auto resolve_all = [&](const char* file) {
+    std::ifstream in(file);
+    std::string line;
+    while (std::getline(in, line)) {
+      std::string name = unhex(line);
+      time_zone tz;
+      bool ok = load_time_zone(name, &tz);
+      printf("{\"e\":\"Resolve\",\"env\":%s,\"name\":%s,\"ok\":%d,\"tzname\":%s,\"isutc\":%d,\"look\":%s,\"fs\":%s}\n", env_json().c_str(),
+             bj(name).c_str(), ok ? 1 : 0, bj(tz.name()).c_str(), tz == utc_time_zone() ? 1 : 0, looks(tz).c_str(), fs_json(name).c_str());
+    }
+  };
+  resolve_all(argv[1]);
+  // second phase: the process changes its environment (as programs that call setenv("TZ"/"TZDIR") do) and
+  // resolves names it has never asked for: the environment in force at the time of the call decides
+  //   --then <TZDIR> <TZ> <LOCALTIME> <names2-file>      ("@unset" / "@empty" for those states)
+  for (int i = 2; i + 4 < argc; ++i) {
+    if (strcmp(argv[i], "--then") != 0) continue;
+    const char* keys[3] = {"TZDIR", "TZ", "LOCALTIME"};
+    for (int k = 0; k < 3; ++k) {
+      const char* v = argv[i + 1 + k];
+      if (strcmp(v, "@unset") == 0) unsetenv(keys[k]);
+      else setenv(keys[k], strcmp(v, "@empty") == 0 ? "" : v, 1);
+    }
+    {
+      time_zone l = local_time_zone();
+      const char* tz = getenv("TZ");
+      std::string n = tz ? tz : ":localtime";
+      if (!n.empty() && n[0] == ':') n = n.substr(1);
+      std::set<std::string> c = {n, "/etc/localtime", "/usr/share/zoneinfo/" + n};
+      if (getenv("LOCALTIME")) { c.insert(getenv("LOCALTIME")); c.insert(std::string("/usr/share/zoneinfo/") + getenv("LOCALTIME")); }
+      if (getenv("TZDIR")) { c.insert(std::string(getenv("TZDIR")) + "/" + n); if (getenv("LOCALTIME")) c.insert(std::string(getenv("TZDIR")) + "/" + getenv("LOCALTIME")); }
+      std::string fsj = "[";
+      bool first = true;
+      for (const std::string& p : c) { fsj += (first ? "" : ",") + fs_entry(p); first = false; }
+      fsj += "]";
+      printf("{\"e\":\"Local\",\"env\":%s,\"ok\":-1,\"tzname\":%s,\"isutc\":%d,\"look\":%s,\"fs\":%s}\n", env_json().c_str(),
+             bj(l.name()).c_str(), l == utc_time_zone() ? 1 : 0, looks(l).c_str(), fsj.c_str());
+    }
+    resolve_all(argv[i + 4]);
   }
   return 0;
 }
